@@ -10,11 +10,14 @@ package main
 // Nothing touches /home/admin/mosn/conf or a fixed port: pkg/mosn.Start (reconfigure listener) is never called.
 
 import (
+	"bufio"
 	"encoding/json"
 	"fmt"
+	"io"
 	"net"
 	"os"
 	"path/filepath"
+	"strconv"
 	"strings"
 	"sync"
 	"time"
@@ -32,39 +35,216 @@ import (
 )
 
 type hcase struct {
-	ID     int    `json:"id"`
-	Proto  string `json:"proto"`
-	Phase  string `json:"phase"` // idle | cuthead | cuthdr | cutbody | wait | resp
-	Done   int    `json:"done"`
-	Follow string `json:"follow"` // next | close
+	ID       int    `json:"id"`
+	Proto    string `json:"proto"`
+	Done     int    `json:"done"`     // requests completed before the stop
+	Inflight int    `json:"inflight"` // requests written and waiting for their upstream answer when the connection moves
+	Cut      int    `json:"cut"`      // 0, or the next request is written up to: 1 inside the fixed head, 2 header block, 3 body
+	Resp     bool   `json:"resp"`     // the (single) request in flight has its response partly written
+	Follow   string `json:"follow"`   // next | close
+	Order    string `json:"order"`    // fifo | lifo: order in which the upstream answers the requests in flight after the move
 }
 
-// rawClient is what the hand-over runs need of a client: byte-exact control over what is on the wire.
-type rawClient interface {
-	Begin(tok string, respSize int) ([]byte, [3]int)
+// label names the phase of the case (used in signatures).
+func (c hcase) label() string {
+	if c.Resp {
+		return "resp"
+	}
+	parts := []string{}
+	if c.Inflight == 1 {
+		parts = append(parts, "wait")
+	} else if c.Inflight > 1 {
+		parts = append(parts, fmt.Sprintf("wait%d%s", c.Inflight, c.Order))
+	}
+	if c.Cut > 0 {
+		parts = append(parts, []string{"cuthead", "cuthdr", "cutbody"}[c.Cut-1])
+	}
+	if len(parts) == 0 {
+		return "idle"
+	}
+	return strings.Join(parts, "+")
+}
+
+const replyWait = 15 * time.Second // a local reply that takes longer than this has failed
+
+// hoClient is what the hand-over runs need of a client: byte-exact control over what is on the wire and, for the
+// multiplexed protocol, several requests waiting for their answers at once.
+type hoClient interface {
+	Begin(tok string, respSize int) (frame []byte, cuts [3]int, key int)
 	WriteRaw(b []byte) error
 	ReadHalf() error
-	ReadRest() (bool, string)
+	ReadReply() (key int, ok bool, detail string) // the next complete reply on the connection
+	Stray(d time.Duration) string                 // anything that arrives within d although no request is waiting
 	BigSize() int
 	GoneAway() bool
 	Alive() bool
 	Close()
 }
 
+// h1Adapter: HTTP/1 is ping-pong, one request at a time.
+type h1Adapter struct{ *h1Client }
+
+func (h h1Adapter) Begin(tok string, size int) ([]byte, [3]int, int) {
+	f, c := h.h1Client.Begin(tok, size)
+	return f, c, 0
+}
+func (h h1Adapter) ReadReply() (int, bool, string) { ok, d := h.ReadRest(); return 0, ok, d }
+func (h h1Adapter) Stray(d time.Duration) string {
+	h.c.SetReadDeadline(time.Now().Add(d))
+	b, err := h.br.Peek(1)
+	h.c.SetReadDeadline(time.Time{})
+	if err == nil && len(b) > 0 {
+		return "bytes after the last reply"
+	}
+	return ""
+}
+
+// muxBolt is a multiplexing bolt v1 client: any number of requests may wait for their answers, answers are matched by id.
+type muxBolt struct {
+	c    net.Conn
+	br   *bufio.Reader
+	next uint32
+	pend map[uint32]*mreq
+	part *mpart
+}
+type mreq struct {
+	tok  string
+	want int
+}
+type mpart struct {
+	head             []byte
+	clen, hlen, nlen int
+	hdr              []byte
+	got              int
+}
+
+func newMuxBolt(addr string) (*muxBolt, error) {
+	c, err := dialRaw(addr)
+	if err != nil {
+		return nil, err
+	}
+	return &muxBolt{c: c, br: bufio.NewReaderSize(c, 4096), pend: map[uint32]*mreq{}}, nil
+}
+
+func (m *muxBolt) Begin(tok string, size int) ([]byte, [3]int, int) {
+	m.next++
+	m.pend[m.next] = &mreq{tok: tok, want: size}
+	f := &Frame{Type: 1, Cmd: 1, ID: m.next, Timeout: 60000, Class: "c11.Req",
+		Header: [][2]string{{"service", "c11"}, {"token", tok}, {"respsize", strconv.Itoa(size)}}, Content: []byte(strings.Repeat("b", reqBody))}
+	frame := f.Encode()
+	cut1 := len(frame) - reqBody
+	fixed := 22 + len(f.Class)
+	return frame, [3]int{10, fixed + (cut1-fixed)/2, cut1 + reqBody/2}, int(m.next)
+}
+
+func (m *muxBolt) WriteRaw(p []byte) error {
+	m.c.SetWriteDeadline(time.Now().Add(ioWait))
+	_, err := m.c.Write(p)
+	return err
+}
+
+func (m *muxBolt) readHead() error {
+	m.c.SetReadDeadline(time.Now().Add(replyWait))
+	head := make([]byte, 20)
+	if _, err := io.ReadFull(m.br, head); err != nil {
+		return err
+	}
+	if head[0] != 1 || head[1] != 0 {
+		return fmt.Errorf("unexpected frame code=%d type=%d", head[0], head[1])
+	}
+	p := &mpart{head: head}
+	p.clen = int(head[12])<<8 | int(head[13])
+	p.hlen = int(head[14])<<8 | int(head[15])
+	p.nlen = int(head[16])<<24 | int(head[17])<<16 | int(head[18])<<8 | int(head[19])
+	p.hdr = make([]byte, p.clen+p.hlen)
+	if _, err := io.ReadFull(m.br, p.hdr); err != nil {
+		return err
+	}
+	m.part = p
+	return nil
+}
+
+// ReadHalf reads the head of the next response and a quarter of its content, then the client stops reading.
+func (m *muxBolt) ReadHalf() error {
+	if err := m.readHead(); err != nil {
+		return err
+	}
+	n, err := io.CopyN(io.Discard, m.br, int64(m.part.nlen/4))
+	m.part.got = int(n)
+	return err
+}
+
+func (m *muxBolt) ReadReply() (int, bool, string) {
+	if m.part == nil {
+		if err := m.readHead(); err != nil {
+			return -1, false, "read response: " + short(err)
+		}
+	}
+	p := m.part
+	m.part = nil
+	m.c.SetReadDeadline(time.Now().Add(ioWait))
+	n, err := io.CopyN(io.Discard, m.br, int64(p.nlen-p.got))
+	id := uint32(p.head[5])<<24 | uint32(p.head[6])<<16 | uint32(p.head[7])<<8 | uint32(p.head[8])
+	if err != nil {
+		return int(id), false, fmt.Sprintf("content after %d of %d bytes: %s", p.got+int(n), p.nlen, short(err))
+	}
+	rq := m.pend[id]
+	if rq == nil {
+		return -1, false, fmt.Sprintf("response for request id %d, which is not waiting (unknown or already answered)", id)
+	}
+	delete(m.pend, id)
+	if st := int(p.head[10])<<8 | int(p.head[11]); st != 0 {
+		return int(id), false, fmt.Sprintf("bolt status %d", st)
+	}
+	if p.nlen != rq.want {
+		return int(id), false, fmt.Sprintf("content %d bytes, want %d", p.nlen, rq.want)
+	}
+	kv, err := decHeader(p.hdr[p.clen:])
+	if err != nil {
+		return int(id), false, "response header block: " + short(err)
+	}
+	f := &Frame{Header: kv}
+	if f.Get("token") != rq.tok {
+		return int(id), false, "token " + f.Get("token") + " for " + rq.tok
+	}
+	if f.Get("reqlen") != strconv.Itoa(reqBody) {
+		return int(id), false, "upstream saw request content of " + f.Get("reqlen")
+	}
+	return int(id), true, ""
+}
+
+func (m *muxBolt) Stray(d time.Duration) string {
+	m.c.SetReadDeadline(time.Now().Add(d))
+	b, err := m.br.Peek(20)
+	m.c.SetReadDeadline(time.Time{})
+	if err == nil && len(b) == 20 {
+		id := uint32(b[5])<<24 | uint32(b[6])<<16 | uint32(b[7])<<8 | uint32(b[8])
+		return fmt.Sprintf("a further frame (type %d, id %d) although no request is waiting", b[1], id)
+	}
+	return ""
+}
+func (m *muxBolt) BigSize() int   { return bigResp }
+func (m *muxBolt) GoneAway() bool { return false }
+func (m *muxBolt) Alive() bool    { return peekAlive(m.c, m.br) }
+func (m *muxBolt) Close()         { m.c.Close() }
+
 type hrun struct {
-	c      hcase
-	name   string
-	addr   string
-	cl     rawClient
-	raw    net.Conn
-	mu     sync.Mutex
-	evs    []vh.Ev
-	t0     time.Time
-	read   int64 // bytes the old process has read from this connection (hook net.read)
-	wrote  int64 // bytes the client has written
-	ev     *bus
-	k      int
-	closed bool
+	c       hcase
+	name    string
+	addr    string
+	cl      hoClient
+	keyK    map[int]int // client key of a waiting request -> its number k
+	flight  []*waiting
+	partial *waiting
+	raw     net.Conn
+	mu      sync.Mutex
+	evs     []vh.Ev
+	t0      time.Time
+	read    int64 // bytes the old process has read from this connection (hook net.read)
+	wrote   int64 // bytes the client has written
+	ev      *bus
+	k       int
+	closed  bool
 }
 
 func (r *hrun) emit(e vh.Ev) {
@@ -247,7 +427,7 @@ func handoverMain(casesPath, out, res string, shard, shards int) {
 		go func() {
 			defer wg.Done()
 			r.t0 = time.Now()
-			r.emit(vh.Ev{"ev": "run", "id": r.c.ID, "proto": r.c.Proto, "phase": r.c.Phase, "done": r.c.Done, "follow": r.c.Follow, "case": r.c})
+			r.emit(vh.Ev{"ev": "run", "id": r.c.ID, "proto": r.c.Proto, "phase": r.c.label(), "done": r.c.Done, "follow": r.c.Follow, "case": r.c})
 			r.setup(arr, shard)
 		}()
 	}
@@ -283,7 +463,7 @@ func handoverMain(casesPath, out, res string, shard, shards int) {
 		for _, e := range r.evs {
 			tr.Emit(e)
 		}
-		rs.Put(map[string]interface{}{"id": r.c.ID, "proto": r.c.Proto, "phase": r.c.Phase, "abandoned": r.closed})
+		rs.Put(map[string]interface{}{"id": r.c.ID, "proto": r.c.Proto, "phase": r.c.label(), "abandoned": r.closed})
 	}
 	tr.Close()
 	rs.Close()
@@ -297,13 +477,13 @@ func (r *hrun) abandon(why string) {
 	}
 }
 
-// write puts frame[from:to] of request k on the wire and waits until the proxy has read every byte written so far.
-func (r *hrun) write(frame []byte, from, to, cut int, waitRead bool) error {
+// write puts frame[from:to] of request k on the wire and, if asked, waits until the proxy has read every byte written so far.
+func (r *hrun) write(k int, frame []byte, from, to, cut int, waitRead bool) error {
 	if err := r.cl.WriteRaw(frame[from:to]); err != nil {
 		return err
 	}
 	r.wrote += int64(to - from)
-	r.emit(vh.Ev{"ev": "h.sent", "k": r.k, "n": to, "total": len(frame), "cut": cut})
+	r.emit(vh.Ev{"ev": "h.sent", "k": k, "n": to, "total": len(frame), "cut": cut})
 	if waitRead {
 		for i := 0; i < 2000; i++ {
 			r.mu.Lock()
@@ -324,64 +504,84 @@ func (r *hrun) awaitUpstream(arr *arrivals, tok string) (bool, string) {
 		if !r.cl.Alive() {
 			return false, "connection closed by the proxy before the request reached the upstream"
 		}
-		if time.Since(t0) > ioWait {
+		if time.Since(t0) > replyWait {
 			return false, "request never reached the upstream"
 		}
 	}
 	return true, ""
 }
 
-func (r *hrun) reply(ok bool, detail string) {
-	r.emit(vh.Ev{"ev": "h.reply", "k": r.k, "ok": ok, "close": r.cl.GoneAway(), "detail": detail})
+type waiting struct {
+	k     int
+	key   int
+	tok   string
+	frame []byte
+	at    int // bytes of the frame on the wire
+}
+
+// begin prepares the next request of the run.
+func (r *hrun) begin(shard int, size int) (*waiting, [3]int) {
+	r.k++
+	w := &waiting{k: r.k, tok: fmt.Sprintf("h%d-%d-%d", shard, r.c.ID, r.k)}
+	var cuts [3]int
+	w.frame, cuts, w.key = r.cl.Begin(w.tok, size)
+	r.keyK[w.key] = w.k
+	return w, cuts
+}
+
+// readReply reads the next reply on the connection and records to which request it belongs.
+func (r *hrun) readReply(expect *waiting) bool {
+	key, ok, d := r.cl.ReadReply()
+	k, known := r.keyK[key]
+	if !known {
+		if key == -1 && expect != nil && strings.HasPrefix(d, "read response") {
+			// nothing arrived: the expected request stays without an answer
+			r.emit(vh.Ev{"ev": "h.reply", "k": expect.k, "ok": false, "close": r.cl.GoneAway(), "detail": d})
+			return false
+		}
+		r.emit(vh.Ev{"ev": "h.stray", "detail": d})
+		return false
+	}
+	delete(r.keyK, key)
+	if ok && expect != nil && k != expect.k {
+		// answers are released one at a time: the one that arrives must be the one released
+		ok, d = false, fmt.Sprintf("the answer of request %d arrived when request %d was answered by the upstream", k, expect.k)
+	}
+	r.emit(vh.Ev{"ev": "h.reply", "k": k, "ok": ok, "close": r.cl.GoneAway(), "detail": d})
+	return ok
 }
 
 // whole performs one complete request.
 func (r *hrun) whole(arr *arrivals, shard int) bool {
-	r.k++
-	tok := fmt.Sprintf("h%d-%d-%d", shard, r.c.ID, r.k)
-	frame, _ := r.cl.Begin(tok, smallResp)
-	if err := r.write(frame, 0, len(frame), 4, false); err != nil {
-		r.reply(false, "write: "+short(err))
+	w, _ := r.begin(shard, smallResp)
+	if err := r.write(w.k, w.frame, 0, len(w.frame), 4, false); err != nil {
+		r.emit(vh.Ev{"ev": "h.reply", "k": w.k, "ok": false, "close": false, "detail": "write: " + short(err)})
 		return false
 	}
-	if ok, d := r.awaitUpstream(arr, tok); !ok {
-		r.reply(false, d)
+	if ok, d := r.awaitUpstream(arr, w.tok); !ok {
+		r.emit(vh.Ev{"ev": "h.reply", "k": w.k, "ok": false, "close": false, "detail": d})
 		return false
 	}
-	arr.release(tok)
-	ok, d := r.cl.ReadRest()
-	r.reply(ok, d)
-	return ok
+	arr.release(w.tok)
+	return r.readReply(w)
 }
-
-var cutIndex = map[string]int{"cuthead": 0, "cuthdr": 1, "cutbody": 2}
-
-type parked struct {
-	tok   string
-	frame []byte
-	at    int
-}
-
-var parkedOf sync.Map // *hrun -> *parked
 
 func (r *hrun) setup(arr *arrivals, shard int) {
-	var err error
+	r.keyK = map[int]int{}
 	if r.c.Proto == "bolt" {
-		var c client
-		c, err = newBolt(r.addr)
-		if err == nil {
-			r.cl = c.(*boltClient)
+		c, err := newMuxBolt(r.addr)
+		if err != nil {
+			r.abandon("dial: " + short(err))
+			return
 		}
+		r.cl = c
 	} else {
-		var c client
-		c, err = newH1(r.addr)
-		if err == nil {
-			r.cl = c.(*h1Client)
+		c, err := newH1(r.addr)
+		if err != nil {
+			r.abandon("dial: " + short(err))
+			return
 		}
-	}
-	if err != nil {
-		r.abandon("dial: " + short(err))
-		return
+		r.cl = h1Adapter{c.(*h1Client)}
 	}
 	r.emit(vh.Ev{"ev": "h.connect", "ok": true})
 	for i := 0; i < r.c.Done; i++ {
@@ -390,39 +590,40 @@ func (r *hrun) setup(arr *arrivals, shard int) {
 			return
 		}
 	}
-	if r.c.Phase == "idle" {
-		return
-	}
-	r.k++
-	p := &parked{tok: fmt.Sprintf("h%d-%d-%d", shard, r.c.ID, r.k)}
-	size := smallResp
-	if r.c.Phase == "resp" {
-		size = r.cl.BigSize()
-	}
-	var cuts [3]int
-	p.frame, cuts = r.cl.Begin(p.tok, size)
-	parkedOf.Store(r, p)
-	if ci, ok := cutIndex[r.c.Phase]; ok {
-		p.at = cuts[ci]
-		if err := r.write(p.frame, 0, p.at, ci+1, true); err != nil {
-			r.abandon("park: " + short(err))
+	// requests in flight: completely written, arrived at the upstream, not answered
+	for i := 0; i < r.c.Inflight; i++ {
+		size := smallResp
+		if r.c.Resp {
+			size = r.cl.BigSize()
 		}
-		return
+		w, _ := r.begin(shard, size)
+		w.at = len(w.frame)
+		if err := r.write(w.k, w.frame, 0, w.at, 4, false); err != nil {
+			r.abandon("park: " + short(err))
+			return
+		}
+		if ok, d := r.awaitUpstream(arr, w.tok); !ok {
+			r.abandon("park: " + d)
+			return
+		}
+		r.flight = append(r.flight, w)
 	}
-	p.at = len(p.frame)
-	if err := r.write(p.frame, 0, p.at, 4, false); err != nil {
-		r.abandon("park: " + short(err))
-		return
-	}
-	if ok, d := r.awaitUpstream(arr, p.tok); !ok {
-		r.abandon("park: " + d)
-		return
-	}
-	if r.c.Phase == "resp" {
-		arr.release(p.tok)
+	if r.c.Resp {
+		arr.release(r.flight[0].tok)
 		if err := r.cl.ReadHalf(); err != nil {
 			r.abandon("park: read response: " + short(err))
+			return
 		}
+	}
+	// and possibly the next request written in part
+	if r.c.Cut > 0 {
+		w, cuts := r.begin(shard, smallResp)
+		w.at = cuts[r.c.Cut-1]
+		if err := r.write(w.k, w.frame, 0, w.at, r.c.Cut, true); err != nil {
+			r.abandon("park: " + short(err))
+			return
+		}
+		r.partial = w
 	}
 }
 
@@ -434,29 +635,40 @@ func (r *hrun) after(arr *arrivals, shard int) {
 			r.ev.waitAny(20*time.Second, "moved")
 		}
 	}
-	if r.c.Phase != "resp" {
-		awaitMove()
-	}
 	ok := true
-	if v, has := parkedOf.Load(r); has {
-		p := v.(*parked)
-		if p.at < len(p.frame) {
-			if err := r.write(p.frame, p.at, len(p.frame), 4, false); err != nil {
-				r.reply(false, "write rest: "+short(err))
-				ok = false
-			} else if up, d := r.awaitUpstream(arr, p.tok); !up {
-				r.reply(false, d)
+	if r.c.Resp {
+		// the client resumes reading; the connection can only move between two writes
+		ok = r.readReply(r.flight[0])
+		awaitMove()
+	} else {
+		awaitMove()
+		// the upstream answers the requests in flight one at a time, in the order of the case: every answer is written by
+		// the stream of the old instance and (bolt) forwarded to the new one in a message of its own
+		fl := append([]*waiting{}, r.flight...)
+		if r.c.Order == "lifo" {
+			for i, j := 0, len(fl)-1; i < j; i, j = i+1, j-1 {
+				fl[i], fl[j] = fl[j], fl[i]
+			}
+		}
+		for _, w := range fl {
+			arr.release(w.tok)
+			if !r.readReply(w) {
 				ok = false
 			}
 		}
-		if ok {
-			arr.release(p.tok)
-			var d string
-			ok, d = r.cl.ReadRest()
-			r.reply(ok, d)
-		}
-		if r.c.Phase == "resp" {
-			awaitMove()
+	}
+	if w := r.partial; w != nil && r.cl.Alive() {
+		if err := r.write(w.k, w.frame, w.at, len(w.frame), 4, false); err != nil {
+			r.emit(vh.Ev{"ev": "h.reply", "k": w.k, "ok": false, "close": false, "detail": "write rest: " + short(err)})
+			ok = false
+		} else if up, d := r.awaitUpstream(arr, w.tok); !up {
+			r.emit(vh.Ev{"ev": "h.reply", "k": w.k, "ok": false, "close": false, "detail": d})
+			ok = false
+		} else {
+			arr.release(w.tok)
+			if !r.readReply(w) {
+				ok = false
+			}
 		}
 	}
 	released := func() bool {
@@ -478,13 +690,19 @@ func (r *hrun) after(arr *arrivals, shard int) {
 			r.cl.Close()
 		}
 	}
+	if r.c.Follow != "close" && ok && !r.cl.GoneAway() {
+		// exactly one answer per request: nothing else may arrive on the connection
+		if d := r.cl.Stray(150 * time.Millisecond); d != "" {
+			r.emit(vh.Ev{"ev": "h.stray", "detail": d})
+		}
+	}
 	r.emit(vh.Ev{"ev": "oldexit"})
 	r.emit(vh.Ev{"ev": "quiesce"})
 	r.cl.Close()
 }
 
 // aliveWithin reports whether the connection is still open after d (it polls; false as soon as it is seen closed).
-func aliveWithin(c rawClient, d time.Duration) bool {
+func aliveWithin(c hoClient, d time.Duration) bool {
 	for t0 := time.Now(); time.Since(t0) < d; time.Sleep(20 * time.Millisecond) {
 		if !c.Alive() {
 			return false
